@@ -14,7 +14,7 @@ THEOREMS = ["C01_leaf_suppressed", "C01_floor_generic", "C01_floor_unique", "C01
             "harvest_all", "C10_bucket_ranges", "forest_subsFrom", "reach_inForest", "C01_bucket_ranges_in_forest",
             "C01_node_backed_generic", "C01_node_backed_unique", "C01_node_values_inside", "microdata_cells", "string_cell_origin", "analyzeConvertors_string", "C01_sample_strings",
             # whole synthetic tables, any cluster plan: stitching and patching move cells only under their own column
-            "locateColumns_loc", "mergeRow_ok", "buildTable_cells", "materializeTree_stringBacked", "C01_table_strings"]
+            "locateColumns_loc", "mergeRow_ok", "buildTable_cells", "materializeTree_stringBacked", "C01_table_strings", "C01_synthesize_plan_strings"]
 PARTIAL = ["buckets: every range of every bucket of every harvest of a forest tree (leaf, branch and refined buckets) is proved to be the released "
            "range, for the same column, of a node of a forest tree that is a branch or a filter-passing leaf (C01_bucket_ranges_in_forest), and "
            "such a node holds >= low_threshold distinct entities per id column whose non-folded rows have their values inside that range "
